@@ -159,6 +159,7 @@ def readable(spec):
 
 
 def simplify(spec):
+    yield from common.drop_unused_pool(spec)
     ops_ = spec["ops"]
     for i, op in enumerate(ops_):
         if op["op"] == "tweak_input" and op.get("coarse"):
